@@ -1586,7 +1586,7 @@ def run(ck):
     import time
     t0 = time.time()
     timing = ck.extra.setdefault('timing_s', {})
-    proved = common.standard_proof_steps(ck, translators=['rings', 'ringspid', 'ringscache', 'ringscanon'], extra_targets=['model/RingsGenSpec.vo'])   # tools/gen_rings.py -> gen/RingsConsts.v, tools/gen_ringspid.py -> gen/RingsPidBody.v, tools/gen_ringscache.py -> gen/RingsCacheKeys.v
+    proved = common.standard_proof_steps(ck, translators=['rings', 'ringspid', 'ringscache', 'ringscanon', 'ringstop'], extra_targets=['model/RingsGenSpec.vo'])   # tools/gen_rings.py -> gen/RingsConsts.v, tools/gen_ringspid.py -> gen/RingsPidBody.v, tools/gen_ringscache.py -> gen/RingsCacheKeys.v
     timing['proof build + audit'] = round(time.time() - t0, 1)
     t0 = time.time()
     quick = ck.tier == 'quick'
